@@ -6,6 +6,9 @@
                              4096 + 256 * (number of characters), because every construct pays for its
                              nodes and for the cap of its loop with its own tokens (171 per token)
       C02_parser_fuel        parsing a successful input needs at most 4*tokens+8 nested engine calls
+      C02_parser_never_out_of_fuel   for EVERY token list, accepted or rejected, the parser finishes (Ok or Err) within
+                             4*tokens+8 nested engine calls: rejected inputs are bounded as well, and the recursion
+                             depth of the parser is linear in the input
       C02_loop_caps          the loops of the models respect the caps charged by cost_bound, independent
                              of the magnitude of the operands and of what libm returns:
                              n! <= 169 rounds (f64/number), w <= 128 Halley steps, ilog <= 66 rounds,
@@ -14,7 +17,7 @@
 From Coq Require Import List NArith ZArith Arith Lia.
 From SC Require Import Base.Res Base.F64 Base.RustInt Base.Oracle Lang.Syntax Lang.Lexer Lang.Literal Lang.Parser
   Eval.EvalF64 Eval.Run Gen.Tables Spec.Surface Spec.Cost Proofs.ParserRel Proofs.Grammar Proofs.LexFacts
-  Proofs.LoopBounds Proofs.GcdFacts.
+  Proofs.LoopBounds Proofs.GcdFacts Proofs.FuelFacts.
 Import ListNotations.
 
 Theorem C02_within_budget :
@@ -37,6 +40,11 @@ Theorem C02_parser_fuel :
     forall F, 4 * (length ts - length (snd r)) + base c <= F -> Parser.run T ph F c ts = Ok r.
 Proof. intros. eapply Run_run; eauto. Qed.
 Print Assumptions C02_parser_fuel.
+
+Theorem C02_parser_never_out_of_fuel :
+  forall V (T : ptab V) ph ts, parse T ph ts <> Fuel.
+Proof. intros. apply parse_never_fuel. Qed.
+Print Assumptions C02_parser_never_out_of_fuel.
 
 Theorem C02_loop_caps :
   (forall x : f64, fge x fzero = true -> fgt x f170 = false -> (Z.to_nat (f64_to_usize x - 1) <= 169)%nat) /\
